@@ -128,7 +128,8 @@ def c02_text_extra(seed, tier):
 
 
 def gen_c13(seed, tier, start):
-    cs = gen_modules(seed, tier, start, 300, 8000)
+    cs = gen_cases.gen_matrix_cases(start)
+    cs = cs + gen_modules(seed, tier, start + len(cs), 300, 8000)
     # probe elements: the slot-flag clause is decided against the source element
     cs = cs + gen_cases.gen_site_cases(seed, n_cases(tier, 300, 8000), start + len(cs))
     # hints are only emitted under optimize
@@ -162,8 +163,21 @@ def jsfree_cases(start, tier, seed):
     return out
 
 
+PROLOGUE_MODULES = [
+    "function render(items) { 'use strict'; return <Comp>{items.map(fn)}</Comp>; }\n",
+    "class V { m() { \"use strict\"; 'second'; foo = <Comp>{foo}</Comp>; return foo } }\n",
+    "const y = (p) => { 'use strict'; return <NS.Item>{g()}</NS.Item> };\n",
+    "function outer() { 'use strict'; if (a) { 'in block'; b = <Comp>{b}</Comp>; } return <div>{a}</div> }\n",
+    "export default function () { 'use strict'; const k = <Comp>{fn()}</Comp>; const j = <Comp>{g()}</Comp>; return [k, j] }\n",
+]
+
+
 def gen_c09(seed, tier, start):
     cs = jsfree_cases(start, tier, seed)
+    for s in PROLOGUE_MODULES:
+        for o in ('{}', '{"optimize": true}', '{"enableObjectSlots": false}'):
+            cs.append({"id": start + len(cs), "src": gen_cases.PROLOGUE + s, "syntax": "jsx", "options": o, "stream": "module",
+                       "feat": ["prologue-module"]})
     cs = cs + gen_modules(seed, tier, start + len(cs), 200, 5000)
     return cs + gen_cases.gen_types_cases(seed, 120 if tier == "quick" else 3000, start + len(cs))
 
